@@ -60,7 +60,8 @@ def is_intlike(x):
 
 
 def is_bool(x):
-    return isinstance(x, bool)
+    # numpy comparisons return numpy.bool_: a boolean for every purpose of the contracts
+    return isinstance(x, bool) or type(x).__name__ in ('bool_', 'bool')
 
 
 def is_str(x):
@@ -183,8 +184,15 @@ def spec_sum(xs, n=None):
 
 
 def count_failures(xs, k):
-    olds = _OLD_RESULTS.get(id(xs), xs)
+    # failures are counted on the results as they were handed over (the returned one may get its ok recomputed)
+    olds = xs
+    for cp_id, orig in COPY_OF.items():
+        if orig is xs and cp_id in _COPIES:
+            olds = _COPIES[cp_id]
     return sum(1 for x in olds[:k] if not (x['ok'] == True))
+
+
+_COPIES = {}
 
 
 _OLD_RESULTS = {}
@@ -249,9 +257,11 @@ def snapshot(objs):
     _PRE_IDS.clear()
     memo = {}
     snap = copy.deepcopy(objs, memo)
+    _COPIES.clear()
     for oid, cp in memo.items():
         if isinstance(cp, (list, dict, set)) or hasattr(cp, '__dict__'):
             COPY_OF[id(cp)] = _find(oid)
+            _COPIES[id(cp)] = cp
     for oid in list(memo):
         _PRE_IDS.add(oid)
     return snap
